@@ -526,3 +526,199 @@ Proof.
     - rewrite IH; [reflexivity|]. intros x I. apply A. right. exact I. }
   apply G. intros x I. change (65 :: repeat 65 n) with (repeat 65 (S n)) in I. apply repeat_spec in I. exact I.
 Qed.
+
+(* ---------- the oracle accepts the model, whatever net/url does ---------- *)
+Lemma list_eqb_refl {A} (e : A -> A -> bool) l : (forall x, e x x = true) -> list_eqb e l l = true.
+Proof. intros R. induction l as [|x l IH]; cbn [list_eqb]; [reflexivity|]. rewrite R, IH. reflexivity. Qed.
+Lemma field_eqb_refl x : field_eqb x x = true.
+Proof. unfold field_eqb. rewrite bytes_eqb_refl, list_eqb_refl by apply bytes_eqb_refl. reflexivity. Qed.
+Lemma hdr_eqb_refl h : hdr_eqb h h = true.
+Proof. unfold hdr_eqb. apply list_eqb_refl, field_eqb_refl. Qed.
+Lemma event_eqb_refl w ev : event_eqb w ev ev = true.
+Proof.
+  destruct ev as [q|p|c d]; cbn [event_eqb]; rewrite ?bytes_eqb_refl, ?hdr_eqb_refl, ?Z.eqb_refl, ?orb_true_r; reflexivity.
+Qed.
+
+Lemma parse_request_line_url url line :
+  parse_request_line url line =
+  match parse_request_line url_accept line with
+  | Ok (m, u, p) _ => match url u with Some u' => Ok (m, u', p) [] | None => Err EUrl end
+  | Err e => Err e
+  | Panic => Panic
+  end.
+Proof.
+  unfold parse_request_line, url_accept.
+  destruct (slice line (index_byte SP line + 1) (zlen line)) as [tail|]; [|reflexivity].
+  destruct ((index_byte SP line <? 0) || (index_byte SP tail <? 0)); [reflexivity|].
+  destruct (slice line 0 (index_byte SP line)) as [a|]; [|reflexivity].
+  destruct (slice line (index_byte SP line + 1) (index_byte SP tail + index_byte SP line + 1)) as [b|]; [|reflexivity].
+  destruct (slice line (index_byte SP tail + index_byte SP line + 1 + 1) (zlen line)) as [c|]; [|reflexivity].
+  destruct (zlen (trim_sp a) =? 0); [reflexivity|]. destruct (idx (trim_sp a) 0); [|reflexivity].
+  destruct (z =? DOLLAR); [reflexivity|].
+  destruct (negb (bytes_eqb (trim_sp a) OPTIONS) && bytes_eqb (trim_sp b) STAR); reflexivity.
+Qed.
+
+Lemma parse_request_line_accept_err line e : parse_request_line url_accept line = Err e -> e = EMalformed.
+Proof.
+  unfold parse_request_line, url_accept.
+  destruct (slice line (index_byte SP line + 1) (zlen line)) as [tail|]; [|discriminate].
+  destruct ((index_byte SP line <? 0) || (index_byte SP tail <? 0)); [intros H; inversion H; reflexivity|].
+  destruct (slice line 0 (index_byte SP line)) as [a|]; [|discriminate].
+  destruct (slice line (index_byte SP line + 1) (index_byte SP tail + index_byte SP line + 1)) as [b|]; [|discriminate].
+  destruct (slice line (index_byte SP tail + index_byte SP line + 1 + 1) (zlen line)) as [c|]; [|discriminate].
+  destruct (zlen (trim_sp a) =? 0); [intros H; inversion H; reflexivity|]. destruct (idx (trim_sp a) 0); [|discriminate].
+  destruct (z =? DOLLAR); [intros H; inversion H; reflexivity|].
+  destruct (negb (bytes_eqb (trim_sp a) OPTIONS) && bytes_eqb (trim_sp b) STAR); [intros H; inversion H; reflexivity|discriminate].
+Qed.
+
+Lemma read_header_f_err f : forall s h e, read_header_f f s h = Err e -> e <> EUrl.
+Proof.
+  induction f as [|f IH]; intros s h e; cbn [read_header_f]; [intros H; inversion H; discriminate|].
+  destruct (read_line s) as [kv r|e'|] eqn:R; [| |discriminate].
+  - destruct (zlen kv =? 0); [discriminate|].
+    destruct (parse_header_line kv) as [[|k v] ?|e'|] eqn:P; try discriminate; try apply IH.
+    apply parse_header_line_err in P. subst e'. intros H; inversion H; discriminate.
+  - apply read_line_err in R. intros H; inversion H; subst. destruct R; subst; discriminate.
+Qed.
+Lemma read_body_err h s e : read_body h s = Err e -> e <> EUrl.
+Proof.
+  unfold read_body, read_body_lim. destruct (content_length h <=? 0); [discriminate|].
+  destruct (content_length h >? max_body); [intros H; inversion H; discriminate|].
+  destruct (zlen s <? content_length h); [intros H; inversion H; discriminate|discriminate].
+Qed.
+
+(* a request differs between two URL oracles only in the URL, or in stopping at the URL *)
+Definition same_but_url (a b : request) : Prop :=
+  q_method a = q_method b /\ q_proto a = q_proto b /\ q_hdr a = q_hdr b /\ q_body a = q_body b.
+
+Lemma read_request_url url s :
+  match read_request url s with
+  | Ok q rest => exists q', read_request url_accept s = Ok q' rest /\ same_but_url q' q
+  | Err EUrl => read_request url_reject s = Err EUrl
+  | Err e => exists e', read_request url_accept s = Err e'
+  | Panic => True
+  end.
+Proof.
+  unfold read_request. destruct (read_line s) as [line s1|e|] eqn:R.
+  2:{ apply read_line_err in R. destruct R; subst; eauto. }
+  2:{ exact I. }
+  rewrite (parse_request_line_url url line), (parse_request_line_url url_reject line).
+  destruct (parse_request_line url_accept line) as [[[m u] p] ?|e|] eqn:P.
+  2:{ apply parse_request_line_accept_err in P. subst e. eauto. }
+  2:{ exact I. }
+  unfold url_reject at 1. destruct (url u) as [u'|]; [|reflexivity].
+  destruct (read_header s1) as [h s2|e|] eqn:H.
+  2:{ unfold read_header in H. pose proof (read_header_f_err _ _ _ _ H). destruct e; try congruence; eauto. }
+  2:{ exact I. }
+  destruct (read_body h s2) as [b s3|e|] eqn:B.
+  - eexists. split; [reflexivity|]. unfold same_but_url. cbn. tauto.
+  - pose proof (read_body_err _ _ _ B). destruct e; try congruence; eauto.
+  - exact I.
+Qed.
+
+(* the stepper either does not look at the URL oracle at all, or is ReadRequest *)
+Lemma stepper_shape kind cfg s :
+  (exists g, forall url, stepper url kind cfg s = g) \/
+  (forall url, stepper url kind cfg s = map_res EvReq (read_request url s)).
+Proof.
+  unfold stepper. destruct (kind =? 1); [right; reflexivity|].
+  destruct (kind =? 2); [left; eexists; reflexivity|]. destruct (kind =? 3); [left; eexists; reflexivity|].
+  destruct s as [|c0 [|c1 [|c2 [|c3 s']]]]; try (left; eexists; intros; apply receive_short; cbn; lia).
+  destruct (c0 =? DOLLAR) eqn:D; [left; eexists; intros; rewrite receive_cons4, D; reflexivity|].
+  destruct ((c0 =? 82) && (c1 =? 84) && (c2 =? 83) && (c3 =? 80)) eqn:R.
+  - left; eexists; intros; rewrite receive_cons4, D, R; reflexivity.
+  - right. intros. rewrite receive_cons4, D, R. reflexivity.
+Qed.
+
+Lemma stepper_url url kind cfg s :
+  match stepper url kind cfg s with
+  | Ok ev rest => exists ev', stepper url_accept kind cfg s = Ok ev' rest /\ event_eqb false ev' ev = true
+  | Err EUrl => stepper url_reject kind cfg s = Err EUrl
+  | Err e => exists e', stepper url_accept kind cfg s = Err e'
+  | Panic => True
+  end.
+Proof.
+  destruct (stepper_shape kind cfg s) as [[g G]|G].
+  - rewrite !G. destruct g as [ev rest|e|]; [|destruct e; eauto|exact I].
+    eexists. split; [reflexivity|apply event_eqb_refl].
+  - rewrite !G. pose proof (read_request_url url s) as H.
+    destruct (read_request url s) as [q rest|e|]; cbn [map_res].
+    + destruct H as (q' & -> & (A & B & C & D)). cbn [map_res]. eexists. split; [reflexivity|].
+      cbn [event_eqb negb orb]. rewrite A, B, C, D, !bytes_eqb_refl, hdr_eqb_refl. reflexivity.
+    + destruct e; try (destruct H as [e' H]; rewrite H; cbn [map_res]; eexists; reflexivity).
+      rewrite H. reflexivity.
+    + exact I.
+Qed.
+
+Lemma ok_walk_model url kind cfg f : forall s pos l fin,
+  read_all (stepper url kind cfg) f s = (l, fin) -> fin <> FFuel ->
+  ok_walk kind cfg s pos (obs_events pos s l) (obs_final fin) = true.
+Proof.
+  induction f as [|f IH]; intros s pos l fin; cbn [read_all].
+  - intros H; inversion H; congruence.
+  - destruct s as [|c s]; [intros H _; inversion H; reflexivity|].
+    pose proof (stepper_url url kind cfg (c :: s)) as U. pose proof (stepper_total url kind cfg (c :: s)) as T.
+    destruct (stepper url kind cfg (c :: s)) as [ev rest|e|]; [| |congruence].
+    + destruct (read_all (stepper url kind cfg) f rest) as [evs fin'] eqn:RA.
+      intros H NF; inversion H; subst. clear H. cbn [obs_events ok_walk].
+      destruct U as (ev' & -> & EQ). rewrite EQ, Z.eqb_refl. cbn [andb]. apply IH; assumption.
+    + intros H _; inversion H; subst. clear H. cbn [obs_events].
+      destruct e; cbn [obs_final ok_walk]; try (destruct U as [e' ->]; reflexivity). rewrite U. reflexivity.
+Qed.
+
+Theorem model_passes_raw url kind cfg s slack :
+  0 <= slack ->
+  let '(evs, fin) := model_obs url kind cfg s in ok_raw kind cfg s slack evs fin (zlen s) = true.
+Proof.
+  intros SL. unfold model_obs, read_stream.
+  destruct (read_all (stepper url kind cfg) (S (length s)) s) as [l fin] eqn:RA.
+  unfold ok_raw. rewrite (ok_walk_model url kind cfg _ _ _ _ _ RA).
+  - cbn [andb]. lia.
+  - pose proof (read_all_no_fuel _ (stepper_ok url kind cfg) (S (length s)) s ltac:(lia)) as NF.
+    rewrite RA in NF. exact NF.
+Qed.
+
+Lemma events_match_expected cfg items tail : forall pos s more,
+  events_match (obs_events pos s (expected cfg items tail ++ more)) (map norm_item items) = true.
+Proof.
+  induction items as [|it l IH]; intros pos s more; cbn [expected map app obs_events events_match];
+    [destruct (obs_events pos s more); reflexivity|].
+  rewrite event_eqb_refl. cbn [andb]. apply IH.
+Qed.
+
+Theorem model_passes_items cfg items tail slack :
+  0 <= slack ->
+  let s := concat_items cfg items ++ tail in
+  let '(evs, fin) := model_obs url_accept 0 cfg s in
+  ok_items cfg items tail slack s evs fin (zlen s) = true.
+Proof.
+  intros SL s. pose proof (model_passes_raw url_accept 0 cfg s slack SL) as R.
+  unfold model_obs in *. destruct (read_stream (stepper url_accept 0 cfg) s) as [l fin] eqn:RS.
+  unfold ok_items. fold s. rewrite bytes_eqb_refl, R. cbn [andb].
+  destruct (forallb (item_wf url_accept cfg) items) eqn:W; [|reflexivity].
+  change (stepper url_accept 0 cfg) with (receive url_accept cfg) in RS.
+  unfold s in RS. rewrite (stream_reader_exact_tail url_accept cfg items tail W) in RS.
+  destruct (read_stream (receive url_accept cfg) tail) as [evs fin'] eqn:RT.
+  inversion RS; subst. rewrite events_match_expected. cbn [andb].
+  destruct tail; [|reflexivity]. cbv in RT. inversion RT; subst. reflexivity.
+Qed.
+
+(* the pion panic before the repair *)
+Lemma read_packet_panic_refuted :
+  read_packet_gen false [0; 1; 2; 3]
+    [36; 0; 0; 20; 144; 96; 0; 1; 0; 0; 0; 0; 0; 0; 0; 0; 190; 222; 0; 1; 31; 0; 0; 0] = Panic.
+Proof. vm_compute. reflexivity. Qed.
+(* a truncated body fabricated a message before the repair *)
+Lemma read_body_padded_refuted :
+  read_body_lim None true [(CONTENT_LENGTH, [[53]])] [97; 98] = Ok [97; 98; 0; 0; 0] [].
+Proof. vm_compute. reflexivity. Qed.
+(* and any Content-Length up to 2^31-1 was allocated *)
+Lemma read_body_unbounded_refuted :
+  exists h, content_length h = 2000000000 /\ read_body_lim None true h [] <> Err EBodyTooBig /\
+            read_body h [] = Err EBodyTooBig.
+Proof.
+  exists [(CONTENT_LENGTH, [[50; 48; 48; 48; 48; 48; 48; 48; 48; 48]])].
+  split; [vm_compute; reflexivity|]. split; [|vm_compute; reflexivity].
+  unfold read_body_lim. replace (content_length _) with 2000000000 by (vm_compute; reflexivity).
+  cbn [Z.leb Z.compare Z.ltb zlen length Z.of_nat]. discriminate.
+Qed.
